@@ -14,6 +14,7 @@ limitations under the License.
 package dir
 
 import (
+	"errors"
 	"fmt"
 	"os"
 	"path/filepath"
@@ -70,6 +71,12 @@ func (d *Dir) Write(files map[string][]byte) error {
 	}
 
 	verifPoint("symlink.before")
+	// A process that died between the Symlink and the Rename below leaves
+	// <target>.new behind; remove such a leftover, or Symlink would fail with
+	// EEXIST on every later Write.
+	if err := os.Remove(d.target + ".new"); err != nil && !errors.Is(err, os.ErrNotExist) {
+		return err
+	}
 	if err := os.Symlink(newDir, d.target+".new"); err != nil {
 		return err
 	}
